@@ -17,7 +17,7 @@ BUDGET = {'quick': 20, 'thorough': 240}
 STREAM_ORDER = ['ops', 'guards', 'mat', 'chart', 'cfg']
 RULE = (common.GEN + 'all entry/exit/action code is probed and sends events; per returned macro step (i) the probe log is compared item by '
         'item with the log reconstructed from the micro steps, (ii) transition order and the exited/entered multisets of every transition '
-        'with the reference model (MacroStep.sent_events is the concatenation of its micro steps lists, object by object; a third of the charts also send parameterless, hence equal, events), (iii) the stated order constraints (descendants exited first, parents entered first, orthogonal '
+        'with the reference model (every micro step of a transition that names an event carries the event the macro step consumed; MacroStep.sent_events is the concatenation of its micro steps lists, object by object; a third of the charts also send parameterless, hence equal, events), (iii) the stated order constraints (descendants exited first, parents entered first, orthogonal '
         'siblings in name order); non-trivial = a macro step with >= 2 transitions or >= 3 exited+entered states; distinct = distinct '
         '(chart, pre-configuration, fired transitions)')
 COMPONENTS = {'real': common.REAL, 'stub': common.STUB}
@@ -103,6 +103,12 @@ def check_trace(sp, r, res):
     pos = 0
     conf = set(r.pre)
     for m, frag in zip(r.ms.steps, expected_log(sp, r.ms)):
+        if m.transition is not None:
+            # every transition that names an event is processed with the event the macro step consumed (that is what its
+            # action is shown, see expected_log), an eventless one with none
+            named = sp.trans[tid(m.transition)].event is not None
+            if (m.event is not r.ms.event) if named else (m.event is not None):
+                return ('trace-lies', 'micro step %r of a macro step that consumed %r carries event %r' % (m, r.ms.event, m.event))
         uids = []
         for item, sends in frag:
             if pos >= len(log) or log[pos] != item:
